@@ -9,7 +9,7 @@ from ..nnabs import fold
 from ..rf import RFContext
 from ..rules import Equiv, canon_binders, canon_params, check_equiv, compare_function, std_rewrites, where_of
 from ..terms import NONE, const, head, is_const, show, strip, strip_all, subst, walk
-from .C08 import SPEC as C08_SPEC, cdist_rewrite, check_scorer
+from .C08 import SPEC as C08_SPEC, TRIANGLE_SELECTORS, cdist_rewrite, check_scorer
 
 CLAIMED = True
 LEVEL = "other"
@@ -163,7 +163,7 @@ def run(r):
         rep.ob("C09-WT", iq, okf, f"{cname} forwards every constructor keyword to the same-named keyword of TcrLevenshtein", where_of(r.P, ss.func, sup[0].node), expected="k=k for every parameter", found=show(c, 160), key="forwarding")
     check_scorer(r, "C09-WT", base + "__init__")
     # ---- C09-SUM / C09-CDR / C09-VAL / C09-PV
-    eqs = Equiv(rewrites=std_rewrites() + [canon_binders, cdist_rewrite], modelled={"tidytcells.tr.get_aa_sequence", "scipy.spatial.distance.squareform", "pandas.DataFrame"})
+    eqs = Equiv(rewrites=std_rewrites() + [canon_binders, cdist_rewrite], modelled={"tidytcells.tr.get_aa_sequence", "scipy.spatial.distance.squareform", "pandas.DataFrame"} | TRIANGLE_SELECTORS)
     compare_function(r, "C09-SUM", base + "calc_cdist_matrix", SPEC, "result = sum over all columns in scope of the per-column weighted cdist; V-gene CDRs expanded (on both tables) iff the loop scope is ALL", eq=eqs, key="sum over columns")
     compare_function(r, "C09-CDR", base + "_get_cdr1_from_v_gene_if_possible", SPEC, "a CDR loop is read from tidytcells' sequence data of the V allele, '' when the allele has no such loop", eq=eqs, key="loop lookup")
     e_s = r.A.summary(base + "_expand_v_gene_cdrs")
